@@ -578,6 +578,8 @@ def register_element(definition: ElementDefinition, **kwargs):
     _ELEMENTS[symbol] = Class
     if kwargs.get("private", False) is True:
         _PRIVATE_ELEMENTS[symbol] = Class
+    elif symbol in _PRIVATE_ELEMENTS and symbol not in _DEFAULT_ELEMENTS:
+        del _PRIVATE_ELEMENTS[symbol]
 
 
 def reset_default_parameter_values(elements: Optional[Union[Type[Element], List[Type[Element]]]] = None):
@@ -625,6 +627,11 @@ def reset(elements: bool = True, default_parameters: bool = True):
     if elements:
         _ELEMENTS.clear()
         _ELEMENTS.update(_DEFAULT_ELEMENTS)
+
+        key: str
+        for key in list(_PRIVATE_ELEMENTS.keys()):
+            if key not in _DEFAULT_ELEMENTS:
+                del _PRIVATE_ELEMENTS[key]
 
     if default_parameters:
         reset_default_parameter_values()
